@@ -1370,7 +1370,18 @@ fn corpus_regions(name: &str) -> Vec<Reg> {
             Reg { rid: 0, s: Some(500_000), e: None, class: "corpus" },
             Reg { rid: 0, s: None, e: None, class: "corpus" },
         ],
-        "svlen-len-4.5" => vec![r(50_000, 50_010), r(99_990, 99_990), r(139_000, 139_990), r(200_000, 200_000), r(1_100_000, 1_100_900), r(16_385, 16_385), r(34_000, 34_990), r(53_000, 53_990), r(2_000_003, 2_000_003), Reg { rid: 0, s: None, e: None, class: "corpus" }],
+        "svlen-len-4.5" => vec![
+            r(50_000, 50_010),
+            r(99_990, 99_990),
+            r(139_000, 139_990),
+            r(200_000, 200_000),
+            r(1_100_000, 1_100_900),
+            r(16_385, 16_385),
+            r(34_000, 34_990),
+            r(53_000, 53_990),
+            r(2_000_003, 2_000_003),
+            Reg { rid: 0, s: None, e: None, class: "corpus" },
+        ],
         _ => vec![
             r(1, 1),
             r(16_384, 16_384),
